@@ -1,5 +1,9 @@
 use std::collections::hash_map::Values;
+#[cfg(not(feature = "verif"))]
 use std::collections::HashSet;
+#[cfg(feature = "verif")]
+#[allow(unused_imports)]
+use crate::verif::{HashSet, MapNew};
 use std::fmt::{Debug, Display};
 use std::hash::Hash;
 
